@@ -516,6 +516,68 @@ def judge_entry_remove(entry, case, ovw, named, got):
     return []
 
 
+REMOVE_SEQ_MODES = [("read", "read", True), ("write-named", "write", True),
+                    ("overwrite-named", "overwrite", True), ("temporary", "write", False)]
+
+
+def observe_remove_seq(case, mode, named, twice):
+    """`close(); remove()` (twice=False) or `remove(); remove()` (twice=True) on a
+    FileProcessTensor of the given mode: (file still there?, bytes unchanged?, what was raised)"""
+    import hashlib
+    import oqupy
+    d = tempfile.mkdtemp(prefix="c17rs_")
+    path = os.path.join(d, "p.hdf5")
+    try:
+        if mode == "read":
+            make_prior("pt", path)
+        with warnings.catch_warnings():
+            warnings.simplefilter("ignore")
+            kw = dict(mode=mode, filename=path if named else None)
+            if mode != "read":
+                kw.update(hilbert_space_dimension=2, dt=0.5)
+            obj = oqupy.FileProcessTensor(**kw)
+            real = obj.filename
+            obj._f.flush()
+            before = hashlib.sha1(open(real, "rb").read()).hexdigest()
+            raised = []
+            for call in ((obj.remove, obj.remove) if twice else (obj.close, obj.remove)):
+                try:
+                    call()
+                    raised.append(None)
+                except Exception as e:      # noqa
+                    raised.append(type(e).__name__)
+            try:
+                obj._f.close()
+            except Exception:
+                pass
+        exists = os.path.exists(real)
+        same = exists and hashlib.sha1(open(real, "rb").read()).hexdigest() == before
+        if exists and real != path:
+            os.remove(real)
+        return exists, same, raised
+    finally:
+        shutil.rmtree(d, ignore_errors=True)
+
+
+def remove_seq_cases():
+    for case, mode, named in REMOVE_SEQ_MODES:
+        for twice in (False, True):
+            yield case, mode, named, twice
+
+
+def judge_remove_seq(case, mode, named, twice, exists, same, raised):
+    """an object that is not entitled never deletes its file, whatever was called before"""
+    entitled = (mode == "overwrite") or (mode == "write" and not named)
+    if not entitled and not exists:
+        seq = "remove();remove()" if twice else "close();remove()"
+        return [("remove-entitlement:%s:%s" % (case, seq.replace(";", "-").replace("()", "")),
+                 {"mode": mode, "filename_given": named, "sequence": seq, "raised": raised,
+                  "file_exists_afterwards": exists,
+                  "how": "FileProcessTensor(mode=%r, filename %s); %s — the object may not delete "
+                         "this file, yet it is gone" % (mode, "given" if named else "None", seq)})]
+    return []
+
+
 def entry_cases():
     for entry in ENTRY_POINTS:
         for ovw in (False, True):
@@ -1139,6 +1201,18 @@ def correspondence(res, tier, rng):
             "entry-remove:%s:%s:%s" % (entry, case, ovw))
         res.count("entry-remove-case")
     correspondence.remove_obs = remove_obs
+    seq_obs = []
+    for case, mode, named, twice in remove_seq_cases():
+        exists, same, raised = observe_remove_seq(case, mode, named, twice)
+        seq_obs.append((case, mode, named, twice, exists, same, raised))
+        exp = "kept" if exists else "deleted"
+        add("removeseq mode=%s hasfn=%d twice=%d" % (mode, int(named), int(twice)),
+            (lambda got_m, e=exp: got_m == e, exp), "removeseq:%s:%s" % (case, twice))
+        if exists and not same and mode == "read":
+            res.disagree("a refused remove() changed the bytes of a file opened for reading",
+                         {"case": case, "twice": twice, "raised": raised})
+        res.count("remove-sequence-case")
+    correspondence.seq_obs = seq_obs
     # (e) PtTempo's choice
     for arg, truthy, is_text in ((None, 0, 0), (False, 0, 0), (True, 1, 0), ("<path>", 1, 1)):
         obs = observe_choice(arg)
@@ -1405,6 +1479,11 @@ def search(res, results=None, rng=None):
         (e, c, o, n, observe_entry_remove(e, o, n, p)) for e, c, o, n, p in remove_cases()]
     for entry, case, ovw, named, got in robs:
         for key, payload in judge_entry_remove(entry, case, ovw, named, got):
+            res.fail(key, payload)
+    sobs = getattr(correspondence, "seq_obs", None) or [
+        (c, m, n, t) + observe_remove_seq(c, m, n, t) for c, m, n, t in remove_seq_cases()]
+    for case, mode, named, twice, exists, same, raised in sobs:
+        for key, payload in judge_remove_seq(case, mode, named, twice, exists, same, raised):
             res.fail(key, payload)
     # modes: creating never overwrites unless asked; remove() refused when not entitled
     for (mode, prior) in (("write", "pt"), ("write", "ptopen"), ("write", "unreadable"),
